@@ -5,6 +5,7 @@ package main
 
 import (
 	"fmt"
+	"math"
 	"unicode/utf8"
 	"go/types"
 	"math/big"
@@ -770,6 +771,24 @@ func buildHandlers() map[string]handler {
 		}
 		panic(unsupported("strings.Trim on symbolic string"))
 	}
+	h["math.Pow"] = func(e *Exec, fn *ssa.Function, a []Value) Value {
+		x, y := a[0].(*Term), a[1].(*Term)
+		if x.IsConst() && y.IsConst() {
+			return KF(math.Pow(x.F, y.F), SF64)
+		}
+		// uninterpreted: equal arguments give equal results; for a positive base the result is a
+		// positive number (possibly +Inf or 0 by overflow/underflow), never NaN
+		for _, p := range e.powMemo {
+			if e.decide(And(FCmp(OFEq, p.x, x), FCmp(OFEq, p.y, y))) {
+				return p.r
+			}
+		}
+		r := e.freshVar("pow", SF64)
+		e.assertPC(Or(Not(FCmp(OFLt, KF(0, SF64), x)), And(FCmp(OFLe, KF(0, SF64), r), Not(FIsNaN(r)))))
+		e.powMemo = append(e.powMemo, powRec{x, y, r})
+		e.sh.addNote("abstraction: math.Pow with symbolic arguments is an uninterpreted function")
+		return r
+	}
 	h["regexp.MustCompile"] = func(e *Exec, fn *ssa.Function, a []Value) Value { return (*Cell)(nil) }
 	h["reflect.ValueOf"] = func(e *Exec, fn *ssa.Function, a []Value) Value {
 		so := e.zero(resultType(fn, 0)).(*StructObj)
@@ -1044,3 +1063,5 @@ func (e *Exec) nowTime(t types.Type) Value {
 	e.lastNow = v
 	return e.mkTime(t, v)
 }
+
+type powRec struct{ x, y, r *Term }
